@@ -541,11 +541,17 @@ def get_error_page(status, **kwargs):
                 with io.open(error_page, newline='') as f:
                     template = f.read()
         except Exception:
-            e = _format_exception(*_exc_info())[-1]
             m = kwargs['message']
             if m:
                 m += '<br />'
-            m += 'In addition, the custom error page failed:\n<br />%s' % e
+            m += 'In addition, the custom error page failed'
+            if cherrypy.serving.request.show_tracebacks:
+                # the text of the exception is debugging information,
+                # like the traceback: production sites do not show it
+                e = _format_exception(*_exc_info())[-1]
+                m += ':\n<br />%s' % e
+            else:
+                m += '.'
             kwargs['message'] = m
 
     response = cherrypy.serving.response
